@@ -818,6 +818,21 @@ class LanguageGraph():
                 asset.super_assets.append(super_asset)
 
         # Generate all of the association nodes of the language graph.
+        for association in self._lang_spec['associations']:
+            # Associations are picked up through the assets they mention
+            # below, one that mentions no known asset at all would otherwise
+            # be ignored silently.
+            for side in ('left', 'right'):
+                if not any(asset.name == association[side + 'Asset']
+                        for asset in self.assets):
+                    msg = '%s asset "%s" for association "%s" not found!'
+                    logger.error(msg, side.capitalize(),
+                        association[side + 'Asset'], association['name'])
+                    raise LanguageGraphAssociationError(
+                        msg % (side.capitalize(),
+                            association[side + 'Asset'],
+                            association['name']))
+
         for asset in self.assets:
             logger.debug(
                 'Create association language graph nodes for asset %s',
